@@ -187,7 +187,8 @@ type SrvReq struct {
 	Conn   *Conn   // Connection that the request belongs to
 
 	status     reqStatus
-	flushreq   *SrvReq
+	flushreq   *SrvReq // first of the Tflush requests waiting for this request
+	flushnext  *SrvReq // next Tflush waiting for the same request as this Tflush
 	prev, next *SrvReq
 }
 
@@ -431,13 +432,13 @@ func (req *SrvReq) Respond() {
 		if req.flushreq != nil {
 			var p *SrvReq
 			r := nextreq.flushreq
-			for ; r != nil; p, r = r, r.flushreq {
+			for ; r != nil; p, r = r, r.flushnext {
 			}
 
 			if p == nil {
 				nextreq.flushreq = req.flushreq
 			} else {
-				nextreq = req.flushreq
+				p.flushnext = req.flushreq
 			}
 		}
 
@@ -457,7 +458,7 @@ func (req *SrvReq) Respond() {
 	// respond to the flush messages
 	// can't send the responses directly to conn.reqout, because the
 	// the flushes may be in a tag group too
-	for freq := flushreqs; freq != nil; freq = freq.flushreq {
+	for freq := flushreqs; freq != nil; freq = freq.flushnext {
 		freq.Respond()
 	}
 }
